@@ -628,13 +628,13 @@ class LoopMixin:
                     cid = self._register_class(cname)
                     m0 = issub(clsof(exc.t), cid) if exc.k in REFKINDS else z3.BoolVal(False)
                     # ordered clauses: an exception is governed by the first clause whose class matches
+                    if rs.get("when"):
+                        m0 = z3.And(m0, self.spec_eval(st, rs["when"], fid, st.heap0, st.entry_frame, {}))
                     m = z3.And(m0, *[z3.Not(x) for x in earlier]) if earlier else m0
                     earlier.append(m0)
                     if rs.get("same"):
                         pv = self.spec_value(st, rs["same"], fid, st.heap0, st.entry_frame, {})
                         m = box(exc) == box(pv)
-                    if rs.get("when"):
-                        m = z3.And(m, self.spec_eval(st, rs["when"], fid, st.heap0, st.entry_frame, {}))
                     alts.append(m)
                     for item in SP._labelled(rs.get("ensures", []), "rpost"):
                         g = self.spec_eval(st, item[1], fid, st.heap0, st.entry_frame, {"exc": exc})
